@@ -9,6 +9,7 @@ from . import common, molprops
 
 SPEC = {
     "level": "exploration",
+    "level_text": "Exploration: snapshot/ensure contract with unique atom/bond tags on permute_molecule (same label set, label order, isomorphic image with all attributes, argument unchanged, same seed -> same result, edge set changed when required), on graphs in and out of label order, stars/near-complete graphs, and through the library's own caller in tucan.test_utils.",
     "suite_under_monitor": True,
     "technique": "runtime contract (icontract snapshot+ensure) on permute_molecule with unique atom/bond tags",
     "rule": ("cases: M1 n<=4, M2, M3, M4, M5, stars and K_n minus one edge (few edge-changing permutations -> long retry loops), K_n (no enforcement), "
